@@ -280,6 +280,46 @@ DETAIL = 'after op on {cls} (pre={w["pre"]}, value=' + repr(getattr(value, 'shap
     return mk
 
 
+def replay_nonneg(op_code):
+    """Contract-guided search: the failed obligation is `every stored element >= 0` after a normal return; the witness
+    fixes shape/dtype/pre-state, the element pattern is searched over a fixed candidate list (negatives, NaN, inf)."""
+    def mk(w):
+        rows, cols = max(1, w.get("rows", 2)), max(1, w.get("cols", 2))
+        pre = {"empty": "pass", "full": f"c._array = np.ones(({rows}, {cols}), dtype='float64')",
+               "3d": f"c._array = N.make_value('xr', shape=(2, {rows}, {cols}))"}[w["pre"]]
+        return {"code": f"""
+import numpy as np, warnings, c13_native as N
+warnings.simplefilter('ignore')
+base = {native_value(w)}
+VIOLATED, DETAIL = False, 'no candidate element pattern left a negative count stored'
+pats = [[-1.0], [-5.0, 1.0], [float('nan'), -5.0], [-5.0, float('nan')], [float('-inf'), 0.0], [float('inf'), -1e-3], [float('nan'), float('-inf')], [-1e-30, 0.0]]
+for pat in pats:
+    det = N.detector({rows}, {cols})
+    c = det.photon
+    {pre}
+    value = base.copy()
+    try:
+        flat = value.values.reshape(-1) if hasattr(value, 'values') else value.reshape(-1)
+        for i in range(flat.size):
+            flat[i] = pat[i % len(pat)] if i < max(len(pat), 2) or pat[0] != pat[0] else 1.0
+        if hasattr(value, 'values'):
+            value = value.copy(data=flat.reshape(value.shape))
+        else:
+            value = flat.reshape(value.shape)
+    except Exception:
+        continue
+    try:
+{op_code.replace("    ", "        ", 1)}
+    except Exception:
+        continue
+    a = c._array
+    if a is not None and bool((np.asarray(a) < 0).any()):
+        VIOLATED, DETAIL = True, 'assigned ' + repr(np.asarray(value).tolist()) + ' (' + str(np.asarray(value).dtype) + '); stored ' + repr(np.asarray(a).tolist())
+        break
+""", "expect": "no negative photon count is stored after an assignment"}
+    return mk
+
+
 OPS = {
     "array.setter": ("{path}::{cls}.array.setter", "    c.array = value", lambda ex, ref, v: ([ref, v], {})),
     "__iadd__": ("pyxel/data_structure/array.py::ArrayBase.__iadd__", "    c += value", lambda ex, ref, v: ([ref, v], {})),
@@ -452,10 +492,10 @@ def _photon_units():
                             a = p.st.cell(ref).fields["_array"]
                             g = p.ex.generic
                             if isinstance(a, VRef) and isinstance(p.st.cell(a), HArr) and len(p.st.cell(a).shape) == 2:
-                                u.oblige(p, f"assign.nonneg[Photon.{opname}:{pre},{kind}]", zb(num_compare("ge", p.st.cell(a).elem(g), VInt(0))), w, info=info)
+                                u.oblige(p, f"assign.nonneg[Photon.{opname}:{pre},{kind}]", zb(num_compare("ge", p.st.cell(a).elem(g), VInt(0))), w, replay_nonneg(op_code), info=info)
                                 u.oblige(p, f"assign.copied[Photon.{opname}:{pre},{kind}]", a.addr != getattr(p.ex, "value_addr", -1), w)
                             elif isinstance(a, VOpaque):
-                                u.oblige(p, f"assign.nonneg[Photon.{opname}:{pre},{kind}]", a.info["nonneg"], w, info=info)
+                                u.oblige(p, f"assign.nonneg[Photon.{opname}:{pre},{kind}]", a.info["nonneg"], w, replay_nonneg(op_code), info=info)
             u.cover(f"cover[Photon.{opname}]", [1] * n_ok, lambda _: True)
         unit("C13", f"Photon.{opname}")(un)
 
